@@ -449,7 +449,7 @@ type modClause struct {
 }
 
 func (g *gen) contractCall(instr ssa.Instruction, callee *ssa.Function, con *Contract, args []string, bindings []ssa.Value, st *state) []string {
-	con.Used = true
+
 	var names []string
 	var tys []types.Type
 	for _, p := range callee.Params {
@@ -460,7 +460,7 @@ func (g *gen) contractCall(instr ssa.Instruction, callee *ssa.Function, con *Con
 }
 
 func (g *gen) contractCallGeneric(instr ssa.Instruction, con *Contract, sig *types.Signature, args []string, tys []types.Type, names []string, st *state, cname string) []string {
-	con.Used = true
+
 	mkEnv := func(s *state) *env {
 		e := &env{g: g, st: s, names: map[string]sval{}, lets: con.Lets}
 		for i, n := range names {
@@ -740,6 +740,9 @@ func (g *gen) frameObject(st *state, name, obj string, instr ssa.Instruction, wh
 		return
 	}
 	allowed := []string{app(">", obj, g.top0)}
+	if strings.HasPrefix(name, "E.") {
+		allowed = append(allowed, sEq(obj, "0")) // a nil slice has no element to write
+	}
 	for _, m := range g.callerMods() {
 		if m.heap == name {
 			allowed = append(allowed, m.member(obj))
